@@ -178,6 +178,9 @@ impl Broker {
                 }
             }
             Packet::PubRel(a) => {
+                // the client has seen a PUBREC for this exchange: an unanswered retransmission of
+                // its PUBLISH no longer needs (and must not get a different) PUBREC
+                self.outstanding.retain(|o| !(o.pid == a.pid && o.kind == OutKind::Pub2));
                 if !self.outstanding.iter().any(|o| o.pid == a.pid && o.kind == OutKind::Rel) {
                     self.outstanding.push(Outst { kind: OutKind::Rel, pid: a.pid });
                 }
